@@ -70,7 +70,7 @@ func (c c24Cfg) slow() bool {
 	case c24Brotli:
 		return c.LevelA >= 7 || c.LevelB >= 7
 	case c24Zstd:
-		return c.LevelA >= int(zstd.SpeedBestCompression) || c.LevelB >= int(zstd.SpeedBestCompression) || c.Window > 1<<20
+		return c.LevelA >= int(zstd.SpeedBetterCompression) || c.LevelB >= int(zstd.SpeedBetterCompression) || c.Window > 1<<20
 	}
 	return false
 }
@@ -83,8 +83,7 @@ func c24GenCfg(t *rapid.T) c24Cfg {
 		case c24Gzip:
 			return c24Pick(t, label, []int{gzip.DefaultCompression, gzip.HuffmanOnly, gzip.NoCompression, gzip.BestSpeed, 2, 5, 6, gzip.BestCompression})
 		case c24Zstd:
-			return c24Pick(t, label, []int{int(zstd.SpeedDefault), int(zstd.SpeedFastest), int(zstd.SpeedDefault), int(zstd.SpeedFastest), int(zstd.SpeedBetterCompression), int(zstd.SpeedDefault), int(zstd.SpeedFastest), int(zstd.SpeedDefault),
-				int(zstd.SpeedDefault), int(zstd.SpeedFastest), int(zstd.SpeedDefault), int(zstd.SpeedFastest), int(zstd.SpeedBetterCompression), int(zstd.SpeedDefault), int(zstd.SpeedFastest), int(zstd.SpeedBestCompression)})
+			return c24Pick(t, label, []int{1, 2, 1, 2, 1, 2, 1, 2, 1, 2, 1, 2, 1, 2, int(zstd.SpeedBetterCompression), int(zstd.SpeedBestCompression)})
 		case c24Brotli:
 			return c24Pick(t, label, []int{6, 0, 1, 2, 4, 5, 3, 6, 6, 0, 1, 2, 4, 5, 9, 11})
 		}
@@ -212,6 +211,9 @@ func c24GenWrite(t *rapid.T, budget *int, slow bool) c24Write {
 		w.Size = c24Pick(t, "size_k", []int{512, 1024, 4096, 8192, 16384, 32768, 32769, 131072})
 	default:
 		w.Size = c24Pick(t, "size_l", []int{1 << 20, 4096, 4097, 65536, 100, 262144, 2, 1, 0, 4096, 16, 65536, 1000, 131072, 2, 1})
+		if vfkit.Thorough() && w.Size >= 65536 {
+			w.Size = c24Pick(t, "size_xl", []int{1 << 20, 1<<20 + 1, 1<<20 - 1, 524288, 2 << 20, 65537, 1 << 20, 300000})
+		}
 	}
 	if slow && w.Size > 70000 {
 		w.Size = 65536 + w.Size%4096
@@ -329,16 +331,25 @@ type c24PPCase struct {
 func c24GenPP(t *rapid.T) c24PPCase {
 	var c c24PPCase
 	c.Cfg = c24GenCfg(t)
-	budget := 768 << 10
+	budget := 384 << 10
+	if vfkit.Thorough() {
+		budget = 3 << 20
+	}
 	if c.Cfg.slow() {
-		budget = 64 << 10
+		budget = 32 << 10
 	}
 	ns := c24Pick(t, "sessions", []int{1, 2, 1, 2, 3, 1, 2, 1})
+	if c.Cfg.slow() && ns > 2 {
+		ns = 2
+	}
 	for s := 0; s < ns; s++ {
 		var ses c24Session
 		nw := c24Pick(t, "writes", []int{1, 2, 3, 4, 5, 6, 8, 10, 12, 16, 3, 4, 3, 5, 7, 9})
 		if !c.Cfg.slow() && c24Uniform(t, "many_writes", 16) == 0 {
 			nw = c24Pick(t, "writes_many", []int{24, 40})
+		}
+		if c.Cfg.slow() && nw > 6 {
+			nw = 3 + nw%4
 		}
 		for i := 0; i < nw; i++ {
 			ses.Writes = append(ses.Writes, c24GenWrite(t, &budget, c.Cfg.slow()))
@@ -348,6 +359,19 @@ func c24GenPP(t *rapid.T) c24PPCase {
 	}
 	c.RawChunks = rapid.SliceOfN(rapid.SampledFrom([]int{1, 2, 3, 5, 9, 64, 512, 1460, 4096, 65536, 1 << 30}), 1, 5).Draw(t, "raw_chunks")
 	return c
+}
+
+// c24Guard turns a panic of the code under test into a violation with its own fingerprint.
+func c24Guard(x *vfkit.X, what string, f func()) {
+	defer func() {
+		if p := recover(); p != nil {
+			if fmt.Sprintf("%T", p) == "*vfkit.failure" {
+				panic(p)
+			}
+			x.Failf("compressed-conn-panic", "%s panicked: %v", what, p)
+		}
+	}()
+	f()
 }
 
 func c24Classify(x *vfkit.X, writes []c24Write) {
@@ -389,10 +413,12 @@ func c24ExecPP(x *vfkit.X, c c24PPCase) {
 		rawA, rawB := c24NewPipe(c.RawChunks)
 		var ends [2]stdnet.Conn = [2]stdnet.Conn{rawA, rawB}
 		if wa != nil {
-			if ends[0], err = wa.Wrap(rawA); err != nil {
+			c24Guard(x, "Wrap", func() { ends[0], err = wa.Wrap(rawA) })
+			if err != nil {
 				x.Failf("wrap-failed", "session %d: Wrap on a fresh connection: %v", si, err)
 			}
-			if ends[1], err = wb.Wrap(rawB); err != nil {
+			c24Guard(x, "Wrap", func() { ends[1], err = wb.Wrap(rawB) })
+			if err != nil {
 				x.Failf("wrap-failed", "session %d: Wrap on a fresh connection: %v", si, err)
 			}
 		}
@@ -414,7 +440,9 @@ func c24ExecPP(x *vfkit.X, c c24PPCase) {
 					buf = make([]byte, sz)
 				}
 				p := buf[:sz]
-				n, err := rd.Read(p)
+				var n int
+				var err error
+				c24Guard(x, "Read", func() { n, err = rd.Read(p) })
 				if n > 0 && !bytes.Equal(p[:n], pending[dir][:n]) {
 					x.Failf("bytes-differ", "session %d, %s, %s: Read returned %d bytes that differ from the bytes written (direction %d, %d bytes still expected)", si, c24KindNames[c.Cfg.Kind], when, n, dir, len(pending[dir]))
 				}
@@ -437,7 +465,9 @@ func c24ExecPP(x *vfkit.X, c c24PPCase) {
 		}
 		for wi, w := range ses.Writes {
 			data := c24Content(w.Content, w.Seed, w.Size)
-			n, err := ends[w.Dir].Write(data)
+			var n int
+			var err error
+			c24Guard(x, "Write", func() { n, err = ends[w.Dir].Write(data) })
 			if err != nil || n != len(data) {
 				x.Failf("write-failed", "session %d write %d (%d bytes, %s): n=%d err=%v", si, wi, len(data), c24KindNames[c.Cfg.Kind], n, err)
 			}
@@ -452,10 +482,12 @@ func c24ExecPP(x *vfkit.X, c c24PPCase) {
 		drain(1, nil, "at the end of the session")
 		// nothing but the written bytes ever comes out: after the writer closes, the reader gets no byte
 		first := ses.CloseFirst & 1
-		_ = ends[first].Close()
+		c24Guard(x, "Close", func() { _ = ends[first].Close() })
 		p := make([]byte, 64)
 		for i := 0; i < 4; i++ {
-			n, err := ends[1-first].Read(p)
+			var n int
+			var err error
+			c24Guard(x, "Read after the peer closed", func() { n, err = ends[1-first].Read(p) })
 			if n > 0 {
 				x.Failf("bytes-out-of-nothing", "session %d, %s: %d bytes read after everything written had been consumed and the writer closed", si, c24KindNames[c.Cfg.Kind], n)
 			}
@@ -463,7 +495,7 @@ func c24ExecPP(x *vfkit.X, c c24PPCase) {
 				break
 			}
 		}
-		_ = ends[1-first].Close()
+		c24Guard(x, "Close", func() { _ = ends[1-first].Close() })
 		all = append(all, ses.Writes...)
 	}
 	c24Classify(x, all)
@@ -489,9 +521,12 @@ func c24GenStream(t *rapid.T) c24StreamCase {
 	var c c24StreamCase
 	c.Cfg = c24GenCfg(t)
 	c.Transport = c24Uniform(t, "transport", 2)
-	budget := 1536 << 10
+	budget := 384 << 10
+	if vfkit.Thorough() {
+		budget = 2 << 20
+	}
 	if c.Cfg.slow() {
-		budget = 96 << 10
+		budget = 32 << 10
 	}
 	nw := c24Pick(t, "writes", []int{1, 2, 3, 4, 6, 8, 12, 20})
 	for i := 0; i < nw; i++ {
@@ -560,7 +595,7 @@ func c24ExecStream(x *vfkit.X, c c24StreamCase) {
 	}
 	x.Class(c24KindNames[c.Cfg.Kind])
 	// a generous deadline guarantees termination; hitting it is inconclusive, never a violation
-	dl := time.Now().Add(40 * time.Second)
+	dl := time.Now().Add(60 * time.Second)
 	_ = rawA.SetDeadline(dl)
 	_ = rawB.SetDeadline(dl)
 	ends := [2]stdnet.Conn{rawA, rawB}
@@ -579,7 +614,7 @@ func c24ExecStream(x *vfkit.X, c c24StreamCase) {
 		if errs[0] != nil || errs[1] != nil {
 			_ = rawA.Close()
 			_ = rawB.Close()
-			if c24IsTimeout(errs[0]) || c24IsTimeout(errs[1]) {
+			if c24IsTimeout(errs[0]) || c24IsTimeout(errs[1]) || !time.Now().Before(dl) {
 				x.Class("inconclusive_timeout")
 				return
 			}
@@ -597,29 +632,36 @@ func c24ExecStream(x *vfkit.X, c c24StreamCase) {
 		timeout   bool
 		secondary bool // failed because another goroutine had already torn the transport down
 	}
-	results := make(chan result, 4)
+	results := make(chan result, 8)
 	// a failing side tears the transport down so that its counterpart does not wait for the deadline
 	fail := func(r result) {
 		results <- r
 		_ = rawA.Close()
 		_ = rawB.Close()
 	}
-	var wg sync.WaitGroup
+	// wg: all goroutines; phase1: the four "payload" parts (writers done, readers have everything expected)
+	var wg, phase1 sync.WaitGroup
+	var tearDown sync.Once
+	var torn = make(chan struct{})
 	for dir := 0; dir < 2; dir++ {
 		wg.Add(2)
+		phase1.Add(2)
 		go func(dir int) { // writer
 			defer wg.Done()
+			defer phase1.Done()
 			for i, w := range plan[dir] {
 				data := c24Content(w.Content, w.Seed, w.Size)
 				n, err := ends[dir].Write(data)
 				if err != nil || n != len(data) {
-					fail(result{fp: "write-failed", msg: fmt.Sprintf("direction %d write %d (%d bytes): n=%d err=%v", dir, i, len(data), n, err), timeout: c24IsTimeout(err), secondary: errors.Is(err, io.ErrClosedPipe) || errors.Is(err, stdnet.ErrClosed)})
+					fail(result{fp: "write-failed", msg: fmt.Sprintf("direction %d write %d (%d bytes): n=%d err=%v", dir, i, len(data), n, err), timeout: c24IsTimeout(err) || !time.Now().Before(dl), secondary: errors.Is(err, io.ErrClosedPipe) || errors.Is(err, stdnet.ErrClosed)})
 					return
 				}
 			}
 		}(dir)
 		go func(dir int) { // reader on the other end
 			defer wg.Done()
+			p1 := sync.OnceFunc(phase1.Done)
+			defer p1()
 			rd := ends[1-dir]
 			exp := want[dir]
 			var bufs []int
@@ -646,7 +688,7 @@ func c24ExecStream(x *vfkit.X, c c24StreamCase) {
 				}
 				got += n
 				if err != nil && got < len(exp) {
-					fail(result{fp: "written-bytes-not-readable", msg: fmt.Sprintf("direction %d: %d of %d bytes read, then %v", dir, got, len(exp), err), timeout: c24IsTimeout(err), secondary: errors.Is(err, io.ErrClosedPipe) || errors.Is(err, stdnet.ErrClosed)})
+					fail(result{fp: "written-bytes-not-readable", msg: fmt.Sprintf("direction %d: %d of %d bytes read, then %v", dir, got, len(exp), err), timeout: c24IsTimeout(err) || !time.Now().Before(dl), secondary: errors.Is(err, io.ErrClosedPipe) || errors.Is(err, stdnet.ErrClosed)})
 					return
 				}
 				if n == 0 {
@@ -658,13 +700,34 @@ func c24ExecStream(x *vfkit.X, c c24StreamCase) {
 					idle = 0
 				}
 			}
+			p1()
+			// keep the transport drained until everybody is done (a zero-length Write still puts
+			// flush markers on the wire, and net.Pipe has no buffer): no further byte may come out
+			one := make([]byte, 1)
+			for {
+				n, err := rd.Read(one)
+				if n > 0 {
+					fail(result{fp: "bytes-out-of-nothing", msg: fmt.Sprintf("direction %d: a byte was read after all %d written bytes had been consumed", dir, len(exp))})
+					return
+				}
+				if err != nil {
+					return
+				}
+				select {
+				case <-torn:
+					return
+				default:
+				}
+			}
 		}(dir)
 	}
-	wg.Wait()
-	close(results)
+	phase1.Wait()
 	// raw first: closing a wrapped end writes a trailer, which would block on net.Pipe with nobody reading
+	tearDown.Do(func() { close(torn) })
 	_ = rawA.Close()
 	_ = rawB.Close()
+	wg.Wait()
+	close(results)
 	if wa != nil {
 		_ = ends[0].Close()
 		_ = ends[1].Close()
@@ -693,7 +756,7 @@ func c24ExecStream(x *vfkit.X, c c24StreamCase) {
 func TestVF_C24_stream(t *testing.T) {
 	vfkit.Run(t, vfkit.Spec[c24StreamCase]{
 		ID: "C24", Unit: "stream",
-		Rule: "cases = compression setting x transport (net.Pipe, loopback TCP) x 1..20 writes split over the two directions, written by one goroutine per direction while the peer reads the expected number of bytes with generated buffer sizes; every byte read must equal the byte written at that position; a 40 s transport deadline only guarantees termination (counted as inconclusive); non-trivial = >=3 writes with one >=4KiB and one <=2 bytes; distinct = distinct case",
+		Rule: "cases = compression setting x transport (net.Pipe, loopback TCP) x 1..20 writes split over the two directions, written by one goroutine per direction while the peer reads the expected number of bytes with generated buffer sizes; every byte read must equal the byte written at that position; a 60 s transport deadline only guarantees termination (counted as inconclusive); non-trivial = >=3 writes with one >=4KiB and one <=2 bytes; distinct = distinct case",
 		Gen:  c24GenStream, Exec: c24ExecStream,
 		ReplayReps: 3,
 	})
